@@ -439,6 +439,8 @@ var c06Families = []c06Family{
 	}},
 }
 
+var c06Config string
+
 func c06Locate(tier string, i int) (*c06Family, int) {
 	for k := range c06Families {
 		n := c06Families[k].n(tier)
@@ -457,7 +459,7 @@ func init() {
 		Rule: "cases = compilable programs without regard to types: every C01 cell (operator x operand class incl. ill-typed) in every syntactic position; every function and directive at every arity 0..4 " +
 			"with random argument classes; valid generated bundles rendered with hostile data (every JSON shape at every param, missing params, missing/hostile $ij); the same template name in two files " +
 			"in both orders; errors raised at call depth 1..4 across files through data=all / params / content blocks; standalone expressions through parse.Expr+EvalExpr; globals files through " +
-			"ParseGlobals; API misuse (non-map data, unknown template). Monitor: totality only (normal return with result xor error; no panic, no process death, render work budget 10^7 steps, " +
+			"ParseGlobals; API misuse (non-map data, unknown template); each shard under one setting of ObligatoryPrintDirectiveNames (none, usable, unknown, needing arguments). Monitor: totality only (normal return with result xor error; no panic, no process death, render work budget 10^7 steps, " +
 			"CPU limit on isolated re-run). distinct = distinct (program, data); non-trivial = the program reached render (compiled)",
 		N: func(tier string) int {
 			n := 0
@@ -466,9 +468,21 @@ func init() {
 			}
 			return n
 		},
+		// the package-level configuration of the renderer is part of "any": each shard runs under one setting of
+		// soyhtml.ObligatoryPrintDirectiveNames (none; usable ones; an unknown one; one that needs arguments)
+		Configs: []string{"", "obligatory:escapeHtml", "obligatory:nosuch", "", "obligatory:truncate", "obligatory:id,changeNewlineToBr", "", "obligatory:insertWordBreaks,nosuch"},
+		Setup: func(tier string, seed uint64, config string) string {
+			c06Config = "obligatory:none"
+			if strings.HasPrefix(config, "obligatory:") {
+				soyhtml.ObligatoryPrintDirectiveNames = strings.Split(strings.TrimPrefix(config, "obligatory:"), ",")
+				c06Config = config
+			}
+			return ""
+		},
 		Run: func(ctx *fw.Ctx, i int) fw.Result {
 			f, k := c06Locate(ctx.Tier, i)
 			ctx.Cell("family:" + f.name)
+			ctx.Cell("config:" + c06Config)
 			return f.run(ctx, k)
 		},
 		Floors: func(obs map[string]int64, cells map[string]bool, tier string) []string {
@@ -480,6 +494,11 @@ func init() {
 			}
 			if obs["render_errors"] == 0 || obs["evalexpr_errors"] == 0 || obs["globals_errors"] == 0 {
 				why = append(why, "an error return must be observed from every entry point")
+			}
+			for _, c := range []string{"config:obligatory:none", "config:obligatory:nosuch", "config:obligatory:truncate", "config:obligatory:escapeHtml"} {
+				if !cells[c] {
+					why = append(why, "renderer configuration never exercised: "+c)
+				}
 			}
 			if obs["errors_from_nested_calls"] == 0 {
 				why = append(why, "no error raised inside a nested call")
